@@ -141,6 +141,7 @@ def run_job(job):
         CTX.violations = []
         CTX.covered = {}
         CTX.seed = seed
+        CTX.cross_every = int(os.environ.get("VERIF_CROSS_EVERY", "40" if tier == "thorough" else "0") or 0) if mode != "selftest" else 0
         deadline = t0 + check.timeout
         state = dict(n=0)
         pcs = set()
@@ -315,7 +316,7 @@ def do_check(prop, mod, args, seed):
 
 def finish(prop, mod, checks, results, tier, seed, t0, args):
     agg = dict(paths=0, aborted=0, decisions=0, queries=0, solver_s=0.0, obligations=0, discharged=0,
-               concretized=0, max_depth=0)
+               concretized=0, max_depth=0, cross_checked=0, cross_agree=0, cross_unsupported=0, cross_s=0.0)
     validated = 0
     nontrivial = 0
     samples = []
@@ -441,11 +442,15 @@ def write_evidence(prop, mod, checks, tier, seed, agg, validated, nontrivial, sa
             evaluations=agg["paths"], distinct_nontrivial=nontrivial,
             rule="one evaluation = one feasible execution path of the real cooler source under symbolic inputs "
                  "(distinct path conditions by construction of the depth-first explorer); a path is non-trivial when "
-                 "it witnesses at least one of the harness's cover labels",
+                 "its witness model satisfies at least one of the harness's cover labels (counted conservatively: a path some other model of which "
+                 "would satisfy a label is not counted)",
             exhaustive=not problems,
             solver="z3 %s" % _z3ver(), queries=agg["queries"], solver_s=round(agg["solver_s"], 2),
             aborted_paths=agg["aborted"], max_decision_depth=agg["max_depth"],
             concretizations=agg["concretized"],
+            second_solver=dict(name="cvc5 %s" % _cvc5ver(), obligations_rechecked=agg["cross_checked"], agree=agg["cross_agree"],
+                               unsupported_or_timeout=agg["cross_unsupported"], seconds=round(agg["cross_s"], 1),
+                               rule="thorough tier: every 40th obligation (pc and negated assertion) exported as SMT-LIB2 and re-discharged; a disagreement is inconclusive"),
             checks=per_check, bounds=bounds,
             cover_labels=sorted(labels),
             functions_encoded=fl, source_sha1=sources,
@@ -462,6 +467,14 @@ def write_evidence(prop, mod, checks, tier, seed, agg, validated, nontrivial, sa
     os.makedirs(os.path.join(VERIF, "evidence"), exist_ok=True)
     with open(os.path.join(VERIF, "evidence", f"{prop}.json"), "w") as f:
         json.dump(ev, f, indent=1, default=str)
+
+
+def _cvc5ver():
+    try:
+        import cvc5
+        return cvc5.__version__
+    except Exception:  # noqa
+        return "?"
 
 
 def _z3ver():
